@@ -3,6 +3,7 @@ package test
 import (
 	"context"
 	"fmt"
+	"maps"
 	"math/rand/v2"
 	"slices"
 	"time"
@@ -28,7 +29,9 @@ type Suite struct {
 	BeforeAll  []vm.Closure
 	AfterAll   []vm.Closure
 	FullMatch  bool
-	caseCount  int
+	// indices of the filters that fully match this suite or one of its parents
+	fullFilters map[int]bool
+	caseCount   int
 }
 
 func (s *Suite) countCases() int {
@@ -87,6 +90,7 @@ func NewSuite(name string, parent *Suite, loc *position.Location) *Suite {
 func (s *Suite) NewSubSuite(name string, loc *position.Location) *Suite {
 	subSuite := NewSuite(name, s, loc)
 	subSuite.FullMatch = s.FullMatch
+	subSuite.fullFilters = maps.Clone(s.fullFilters)
 	return subSuite
 }
 
